@@ -935,3 +935,49 @@ def r11(rr, repo):
             rr.ob('a result is stored under the topic it carries itself', False, mod, lp, witness=f'for {U(lp.target)} in {U(lp.iter)}: results are paired with topics by position', key='writeback-by-own-topic')
         else:
             rr.unresolved('how the results of the chains are written back was not recognised', mod, lp, witness=U(lp.iter)[:80], key='writeback-by-own-topic')
+
+
+@rule('C17.R12', "a configured transform reaches the images it was configured for, and its result is what leaves: Util.process runs the transform block when transforms are configured; a transform without topics joins "
+                 "the chain of every topic, one with topics the chains of those topics; execute_xforms stores the frame it ends up with in the record it returns")
+def r12(rr, repo):
+    mod, proc = repo.find(f'{UT}::Util.process')
+    _, exe = repo.find(f'{UT}::Util.execute_xforms')
+    maps = [n for n in walk_scope(proc) if isinstance(n, ast.Assign) and isinstance(n.value, ast.Call) and 'execute_xforms' in U(n.value)]
+    rr.floor('executions of the chains', len(maps), 1, mod, proc)
+    for n in maps:
+        g = q.effective_guards(n, proc)
+        ok = any(p and 'self.xforms' in t for t, p in g) and not any((not p) and 'self.xforms' in t for t, p in g)
+        rr.ob('the chains are executed when transforms are configured', ok, mod, n, witness=str(g)[:120], key='xforms-run-when-configured')
+    apps = [c for c in q.calls_in(proc) if isinstance(c.func, ast.Attribute) and c.func.attr == 'append' and U(c.func.value).endswith('.xforms')]
+    rr.floor('places a transform joins a chain', len(apps), 2, mod, proc)
+    kinds = set()
+    for c in apps:
+        g = q.effective_guards(c, proc)
+        alln = [(t, p) for t, p in g if 'xform.topics' in t.replace('xform_topics := ', '') and 'is None' in t]
+        if len(alln) != 1:
+            rr.unresolved('how a transform is assigned to the topic chains was not recognised', mod, c, witness=str(g)[:160], key='xform-assignment')
+            continue
+        to_all = alln[0][1]
+        from ..model import ancestors as _anc
+        loops = [a for a in _anc(c) if isinstance(a, ast.For) and a is not None]
+        over = U(loops[0].iter) if loops else ''
+        if to_all:
+            ok = over.endswith('topic_xforms.values()')
+            rr.ob('a transform without topics joins the chain of EVERY topic that has an image', ok, mod, c, witness=f'loop over {over}', key='xform-to-all')
+            kinds.add('all')
+        else:
+            ok = any(p and 'topic_xforms.get(topic)' in t for t, p in g) and any((not p) and 'topic not in frames' in t for t, p in g)
+            rr.ob('a transform with topics joins the chains of exactly those topics (that arrived, with an image)', ok, mod, c, witness=str(g)[:200], key='xform-to-named')
+            kinds.add('named')
+    rr.ob('both kinds of transform are assigned', kinds == {'all', 'named'}, mod, proc, witness=str(sorted(kinds)), key='xform-assignment-kinds')
+    # execute_xforms: the frame variable the chain loop rebinds is stored back after the loop, and the record is returned
+    loops = [n for n in exe.body if isinstance(n, ast.For) and U(n.iter).endswith('.xforms')]
+    rec = q.func_params(exe)[1] if len(q.func_params(exe)) > 1 else 'topic_xform'
+    if len(loops) == 1:
+        after = [s_ for s_ in exe.body if s_.lineno > loops[0].end_lineno]
+        stored = [s_ for s_ in after if isinstance(s_, ast.Assign) and U(s_.targets[0]) == f'{rec}.frame' and U(s_.value) == 'frame']
+        ret = [s_ for s_ in after if isinstance(s_, ast.Return) and U(s_.value) == rec]
+        rr.ob('execute_xforms puts the transformed frame into the record and returns the record', bool(stored) and bool(ret) and stored[0].lineno < ret[0].lineno, mod, exe,
+              witness=f'stored: {bool(stored)}, returned: {bool(ret)}', key='chain-result-stored')
+    else:
+        rr.unresolved('execute_xforms: the chain loop was not recognised', mod, exe, key='chain-result-stored')
